@@ -10,17 +10,26 @@ from . import core
 from .core import cq_bool, cq_list, cq_nat, cq_Z
 
 THEOREMS = ["C01_transparent", "C01_rows_sound", "C01_transparent_reload_partial",
-            "C01_transparent_refuted_dberr", "C01_transparent_refuted_uncaught", "C01_example"]
+            "C01_transparent_refuted_dberr", "C01_transparent_refuted_uncaught", "C01_example",
+            "C01_example_unrepairable"]
 
 EXN = ["UnpicklingError", "EOFError", "AttributeError", "ModuleNotFoundError", "ImportError", "TypeError",
        "ValueError", "IndexError", "KeyError", "MemoryError", "OverflowError", "UnicodeDecodeError", "OtherExn"]
 ENTRY_KINDS = ["not_pickle", "empty", "truncate", "truncate1", "bad_module", "bad_class", "bad_args",
                "pickled_none", "int_value", "null_value", "text_value", "flip"]
-LAYOUT_KINDS = ["models_dropped", "models_wrong", "models_extra", "meta_dropped", "meta_wrong", "meta_emptied"]
+# right names + primary key, other declared types/affinities: usable by SELECT/INSERT, rejected by the layout check
+RETYPE_KINDS = ["models_lasthit_text", "models_lasthit_real", "models_data_text", "models_hash_blob", "models_untyped"]
+LAYOUT_KINDS = (["models_dropped", "models_wrong", "models_extra", "models_view", "meta_dropped", "meta_wrong", "meta_emptied"]
+                + RETYPE_KINDS)
 LAYOUT_COQ = {"models_dropped": "LModelsDropped", "models_wrong": "LModelsWrong", "models_extra": "LModelsExtra",
+              "models_view": "LModelsView",
               "meta_dropped": "LMetaDropped", "meta_wrong": "LMetaWrong", "meta_emptied": "LMetaEmptied"}
-FILE_KINDS = ["delete", "zero", "truncate", "garbage"]
-BREAKING = {("layout", "models_dropped"), ("layout", "models_wrong")} | {("file", k) for k in FILE_KINDS}
+LAYOUT_COQ.update({k: "LModelsExtra" for k in RETYPE_KINDS})
+FILE_KINDS = ["delete", "zero", "truncate", "garbage", "directory"]
+BREAKING = ({("layout", "models_dropped"), ("layout", "models_wrong"), ("layout", "models_view")}
+            | {("file", k) for k in FILE_KINDS})
+LOCK_MODES = ["reserved", "exclusive", "release"]
+KNOWN_TAG_LASTHIT = "lasthit-text-affinity-after-init-same-process"
 SWAP = "index_swap_restart"   # rowids behind two keys of the primary-key index swapped, then a process restart
 DAY = 86400 * 10**6
 DAYS_COMMON = [0, 1, 1, 2, 30, 30, 30]
@@ -244,7 +253,7 @@ def _first_use(ops):
     return True
 
 
-def gen_history(rng, texts, nops):
+def gen_history(rng, texts, nops, with_locks=False):
     nt = len(texts)
     ops = []
     parsed = []
@@ -266,8 +275,10 @@ def gen_history(rng, texts, nops):
         elif x < 0.87:
             ti = rng.choice(parsed) if parsed else rng.randrange(nt)
             ops.append(["entry", ti, rng.choice(ENTRY_KINDS), rng.randrange(100000)])
-        elif x < 0.94:
+        elif x < 0.935:
             ops.append(["layout", rng.choice(LAYOUT_KINDS)])
+        elif x < 0.95 and with_locks:
+            ops.append(["lock", rng.choice(LOCK_MODES)])
         else:
             ops.append(["file", rng.choice(FILE_KINDS + [SWAP, SWAP])])
     return {"texts": texts, "ops": ops}
@@ -293,6 +304,13 @@ def corpus(texts):
             hs.append([P(g), [fam, k], ["reload"], P(g), P(b), P(g)])
             hs.append([[fam, k], P(g), P(g)])
             hs.append([P(g), ["reload"], [fam, k], P(g2), P(g)])
+    for mode in ("reserved", "exclusive"):     # another connection holds a lock during the calls
+        hs.append([P(g), P(g2), ["lock", mode], P(g), P(g, 30, 1), P(2), P(b), ["reload"], P(g), P(g2, 30, 1),
+                   ["lock", "release"], P(g), P(2), P(g2)])
+        hs.append([["lock", mode], P(g), P(g), ["reload"], P(g)])
+        hs.append([P(g), ["lock", mode], ["entry", g, "empty", 5], ["layout", "models_wrong"], P(g), ["file", "garbage"], P(g), P(g)])
+    for k in RETYPE_KINDS + ["models_view", "models_extra"]:   # miss then hit, both update flags, same process and after reload
+        hs.append([P(g), P(g2), ["layout", k], P(g), P(g, 30, 1), P(2), P(2), P(2, 30, 1), P(b), ["reload"], P(2), P(2), P(g), P(g, 30, 1), P(g)])
     for d in DAYS_EXTREME:      # extremes of cache_expiration_days on the first use in a process and after a reload
         hs.append([P(g, d), P(g, d), P(b, d), ["reload"], P(g, d), ["advance", DAY], ["reload"], P(g2, d), P(g, d)])
     g3 = 2
@@ -317,16 +335,24 @@ def judge(case, res):
     cur_ver = 0
     parsed_under = set()      # (text, version) pairs parsed so far with caching enabled
     none_injected = set()
+    lasthit_text_live = False
     for i, (op, ob) in enumerate(zip(case["ops"], res["obs"])):
         k = op[0]
         if k == "reload" or (k == "file" and op[1] == SWAP):
-            initialized, fault_since = False, False
+            initialized, fault_since, lasthit_text_live = False, False, False
         elif k == "setver":
             clean = not op[2]
             cur_ver = op[1]
+        elif k == "lock":
+            pass
         elif (k, op[1]) in BREAKING and k in ("layout", "file"):
             if initialized:
                 fault_since = True
+            lasthit_text_live = False
+        elif k == "layout" and op[1].startswith("models_") and ob.get("applied") == "ok":
+            # the models table now has last_hit with TEXT affinity, in a process that will not check the layout again
+            lasthit_text_live = (op[1] == "models_lasthit_text" and initialized) or \
+                                (lasthit_text_live and op[1] == "models_extra")
         elif k == "entry" and op[2] == "pickled_none":
             none_injected.add(op[1])
         elif k == "parse":
@@ -336,6 +362,10 @@ def judge(case, res):
                 if ob.get("db") and clean and initialized and fault_since:
                     return (KNOWN_TAG, "op %d: parse raised %s (%s) after the database was damaged in a process that "
                             "had already checked it" % (i, ob["cls"], ob.get("msg")), i)
+                if ob["cls"] == "TypeError" and clean and initialized and lasthit_text_live:
+                    return (KNOWN_TAG_LASTHIT, "op %d: parse raised TypeError (%s) on a cache hit after the models table got "
+                            "a last_hit column of TEXT affinity in a process that had already checked the layout"
+                            % (i, ob.get("msg")), i)
                 return ("parse-raised-" + ob["cls"], "op %d: parse raised %s: %s" % (i, ob["cls"], ob.get("msg")), i)
             if got != want:
                 return ("wrong-result", "op %d: parse returned %s, an uncached parse of the same text gives %s"
@@ -431,13 +461,17 @@ def encode_case(case, res):
             ops.append("CorruptEntry %s %s" % (cq_nat(op[1]), enc_blob(ob["blob"])))
         elif k == "layout":
             ops.append("CorruptLayout %s" % LAYOUT_COQ[op[1]])
+        elif k == "lock":
+            raise ValueError("histories with lock ops are judged by the oracle only")
+        elif k == "file" and op[1] == "directory":
+            ops.append("MakeDir")
         elif k == "file" and op[1] == SWAP:
             if ob.get("applied") == "ok":     # model: the file fails the integrity check, then the process restarts
                 ops.append("CorruptFile")
                 obs.append("(ONone, 0%%nat, %s)" % enc_store(ob.get("store")))
             ops.append("Reload")
         elif k == "file":
-            ops.append("DeleteFile" if op[1] in ("delete", "zero") else "CorruptFile")
+            ops.append({"delete": "DeleteFile", "zero": "ZeroFile"}.get(op[1], "CorruptFile"))
         obs.append("(%s, %s, %s)" % (out, cq_nat(ob.get("fresh_calls", 0)), enc_store(ob.get("store"))))
     return "(%s, %s, %s)" % (sy, cq_list(ops), cq_list(obs))
 
@@ -545,13 +579,13 @@ def run(ctx):
     except OSError:
         pass
     n_corpus = len(cases) - n_probe
-    n_rand = ctx.scaled(240, 4000)
+    n_rand = ctx.scaled(200, 4000)
     max_ops = ctx.scaled(12, 24)
     texts = base_texts
     for i in range(n_rand):
         if i % 25 == 0:
             texts = gen_texts(rng)
-        cases.append(gen_history(rng, texts, rng.randint(3, max_ops)))
+        cases.append(gen_history(rng, texts, rng.randint(3, max_ops), with_locks=(i % 6 == 3)))
     import time as _t
     t_impl = _t.time()
     known_entries = [e for e in core.load_known(ctx.pid) if (e.get("replay") or {}).get("history")]
@@ -631,7 +665,8 @@ def run(ctx):
         ties["tie:C01_transparent_reload-instantiated-for-this-source"] = (
             "Lemma c : forall e, gen_caught e = true. Proof. intros []; vm_compute; reflexivity. Qed.\n"
             "Theorem C01_tied (sy : nat -> bool) (s : state) (h : list op) :\n"
-            "  legal h = true -> Inv sy s -> s_init s = false -> disciplined false false (is_clean (s_ver s)) h = true ->\n"
+            "  legal h = true -> Inv sy s -> s_init s = false -> benign (s_db s) ->\n"
+            "  disciplined false false (is_clean (s_ver s)) h = true ->\n"
             "  transparent sy gen_caught gen_handles_dberr s h.\n"
             "Proof. exact (transparent_reload sy gen_caught gen_handles_dberr c s h). Qed.\n"
             "Print Assumptions C01_tied.\n"
@@ -654,6 +689,7 @@ def run(ctx):
     opcount, kinds, nontrivial = {}, {}, set()
     n_parse = n_hit = n_raise_none = 0
     first_bad = {}
+    verdict_tag = {}
     for idx, (c, r) in enumerate(zip(cases, results)):
         for op in c["ops"]:
             opcount[op[0]] = opcount.get(op[0], 0) + 1
@@ -670,6 +706,7 @@ def run(ctx):
                 nontrivial.add(json.dumps(c["ops"]))
         v = judge(c, r)
         if v:
+            verdict_tag[idx] = v[0]
             first_bad.setdefault(v[0], []).append(idx)
     for tag, idxs in sorted(first_bad.items()):
         idx = min(idxs, key=lambda j: len(cases[j]["ops"]))
@@ -686,7 +723,15 @@ def run(ctx):
 
     ctx.notes["timing_s"]["until_correspondence"] = round(_t.time() - ctx.t0, 1)
     # ---- (b) correspondence, inside Coq -----------------------------------------------------------
-    idx_ok = [i for i, r in enumerate(results) if "obs" in r]
+    # not evaluated on the model: histories with lock ops (the lock of another connection is not in the model: oracle
+    # only) and histories whose verdict is a LISTED known finding (the model describes the repaired behaviour)
+    known_tags = {e.get("tag") for e in core.load_known(ctx.pid)}
+    oracle_only = [i for i, c in enumerate(cases) if any(op[0] == "lock" for op in c["ops"])
+                   or verdict_tag.get(i) in known_tags]
+    ctx.notes["histories_judged_by_oracle_only"] = {
+        "with_lock_ops": sum(1 for c in cases if any(op[0] == "lock" for op in c["ops"])),
+        "known_finding_verdict": sum(1 for i in range(len(cases)) if verdict_tag.get(i) in known_tags)}
+    idx_ok = [i for i, r in enumerate(results) if "obs" in r and i not in set(oracle_only)]
     enc = [encode_case(cases[i], results[i]) for i in idx_ok]
     pre = "From Coq Require Import ZArith List.\nImport ListNotations.\nFrom PV Require Import Model.C01_cache.\nFrom RunC01 Require Import Gen.\n"
     bad, bad_int = eval_both(ctx, pre, enc)
